@@ -1,4 +1,5 @@
 import Hive.Proofs.DListObs
+import Hive.Proofs.DListCode
 import Hive.Gen.C10_Skel
 /-!
 # C10 — `ds.List` behaves exactly like a reference doubly-linked list (Go's `container/list`)
@@ -134,6 +135,116 @@ theorem C10_old_moveBefore_witness :
     (oldMoveBefore s false 5 3).seq false = [3, 4, 5] ∧
     (sstep (abs s) (.moveBefore false 5 3)).1.lst false = [5, 3, 4] := by
   decide
+
+/-! ## the regenerated code
+
+`Hive/Gen/C10_Code.lean` is the translation (harness/c10/xlate, go/ast) of every function of the inner `list` and of
+`listElement` in ds/list_impl.go, and of every function of GOROOT's `container/list`, into the statement language of
+`Hive/Model/DListIR.lean`; it is regenerated on every run.  The hand-written model is therefore no longer trusted:
+it is *proved equal* to the meaning of the translated source, on every state. -/
+section code
+open IR Hive.Gen.C10Code
+
+/-- The translator accepted both files completely: no function outside the language, all 21 functions of
+ds/list_impl.go (inner list + element) and all 20 of container/list present. -/
+theorem C10_code_translated :
+    errors = [] ∧
+    hive_defined = [.Init, .lazyInit, .insert, .insertValue, .remove, .move, .Front, .Back, .Len, .PushFront,
+      .PushBack, .Remove, .InsertBefore, .InsertAfter, .MoveToFront, .MoveToBack, .MoveBefore, .MoveAfter, .Next, .Prev,
+      .Value] ∧
+    std_defined = [.Init, .lazyInit, .insert, .insertValue, .remove, .move, .Front, .Back, .Len, .PushFront,
+      .PushBack, .Remove, .InsertBefore, .InsertAfter, .MoveToFront, .MoveToBack, .MoveBefore, .MoveAfter, .Next, .Prev] := by
+  decide
+
+/-- **The source of `ds.List` is the source of `container/list`**: function by function the two translations are the
+same statement lists (hive's atomics and interface-typed handles normalised away), the two whole-list push loops
+included.  `Value()` exists only in hive (a field in container/list). -/
+theorem C10_code_same_as_container_list :
+    (∀ fn, fn ≠ .Value → std_code fn = hive_code fn) ∧
+    std_PushBackList = hive_PushBackList ∧ std_PushFrontList = hive_PushFrontList :=
+  ⟨std_agrees.code, rfl, rfl⟩
+
+/-- **The translated code means the model** — every operation, every state (no well-formedness, no `okRun`: stale
+handles, corrupted rings and negative `len` included). -/
+theorem C10_code_is_model (s : St) (op : Op) :
+    semOp hiveLib op (conc s) = (conc (step s op).1, outVal (step s op).2) :=
+  code_step hive_agrees s op
+
+/-- **Unconditionally the same pointer program as `container/list`**: on every concrete state (heap, lengths,
+allocation counter — arbitrary, also not reachable ones) every operation executed by hive's code and by
+container/list's code gives the same state and the same result.  This is the statement that covers handles that were
+live before an `Init`, where no simpler specification exists. -/
+theorem C10_code_is_container_list (c : CSt) (op : Op) : semOp hiveLib op c = semOp stdLib op c := by
+  have h : c = conc { heap := c.heap, len := c.len, fresh := c.fresh, seq := fun _ => [], stale := [] } := rfl
+  rw [h, code_step hive_agrees, code_step std_agrees]
+
+/-- The observers of the translated code are the model's observers (every state). -/
+theorem C10_code_observers (s : St) (l : Bool) (e : Nat) :
+    sem hive_code .Front [] l (conc s) = (conc s, .word (front s l)) ∧
+    sem hive_code .Back [] l (conc s) = (conc s, .word (back s l)) ∧
+    sem hive_code .Len [] l (conc s) = (conc s, .int (s.len l)) ∧
+    semElem hive_code .Next e (conc s) = .word (nextOf s e) ∧
+    semElem hive_code .Prev e (conc s) = .word (prevOf s e) ∧
+    semElem hive_code .Value e (conc s) = .word (if e < 3 then 0 else (s.heap e).val) := by
+  refine ⟨front_c (fun _ _ => rfl) s l, back_c (fun _ _ => rfl) s l, len_c (fun _ _ => rfl) s l,
+    next_c (fun _ _ => rfl) s e, prev_c (fun _ _ => rfl) s e, ?_⟩
+  have key : sem hive_code .Value [e] false (conc s) =
+      if (decide (e < 3)) = true then (conc s, Val.word 0) else (conc s, .word (s.heap e).val) := rfl
+  unfold semElem; rw [key]; by_cases h : e < 3 <;> simp [h]
+
+/-- A history executed by a translated library. -/
+def runCode (lib : Lib) (c : CSt) : List Op → CSt × List Val
+  | [] => (c, [])
+  | op :: ops =>
+    let r := semOp lib op c
+    let rs := runCode lib r.1 ops
+    (rs.1, r.2 :: rs.2)
+
+theorem runCode_eq (lib : Lib) (a : Agrees lib) : ∀ (ops : List Op) (s : St),
+    runCode lib (conc s) ops = (conc (run s ops).1, (run s ops).2.map outVal) := by
+  intro ops
+  induction ops with
+  | nil => intro s; rfl
+  | cons op ops ih =>
+    intro s
+    simp only [runCode, run, code_step a, ih, List.map_cons]
+
+/-- **End to end**: the code translated from the working tree, run on any history from two fresh lists that does not
+reuse handles from before an `Init`, returns exactly what the abstract `container/list` specification returns, ends in
+a heap that is the doubly-linked ring of the specification's final sequences, and `len` is their length. -/
+theorem C10_code_refines_run (ops : List Op) (hok : okRun sinit ops) :
+    (runCode hiveLib (conc init) ops).2 = (srun sinit ops).2.map outVal ∧
+    (∀ l, Ring (runCode hiveLib (conc init) ops).1.heap (root l) ((srun sinit ops).1.lst l)) ∧
+    (∀ l, (runCode hiveLib (conc init) ops).1.len l = ((srun sinit ops).1.lst l).length) := by
+  obtain ⟨h1, h2, h3⟩ := C10_refines_run ops hok
+  rw [runCode_eq hiveLib hive_agrees]
+  refine ⟨by rw [h1], fun l => C10_ring_after_run ops hok l, fun l => ?_⟩
+  have := h3.len l
+  rw [← h2]; exact this
+
+/-- The same for `container/list`'s code: the specification `Hive/Spec/DList.lean` really is container/list. -/
+theorem C10_container_list_meets_spec (ops : List Op) (hok : okRun sinit ops) :
+    (runCode stdLib (conc init) ops).2 = (srun sinit ops).2.map outVal := by
+  rw [runCode_eq stdLib std_agrees, (C10_refines_run ops hok).1]
+
+/-- The hypothesis is satisfiable: `demo` (all operation kinds, foreign and removed handles, self-push, `Init`). -/
+example : (runCode hiveLib (conc init) demo).2 = (srun sinit demo).2.map outVal :=
+  (C10_code_refines_run demo (by decide)).1
+
+/-- The thread-safe wrapper delegates every method to the inner method of the same name with its own parameters in
+their order; the constructors initialise (`newList` calls `Init`, which is the model's initial state). -/
+theorem C10_code_wrappers :
+    hive_wrappers = ["Init -> Init()", "Front -> Front()", "Back -> Back()", "PushFront -> PushFront(p0)",
+      "PushBack -> PushBack(p0)", "Remove -> Remove(p0)", "InsertBefore -> InsertBefore(p0,p1)",
+      "InsertAfter -> InsertAfter(p0,p1)", "MoveToFront -> MoveToFront(p0)", "MoveToBack -> MoveToBack(p0)",
+      "MoveBefore -> MoveBefore(p0,p1)", "MoveAfter -> MoveAfter(p0,p1)", "PushBackList -> PushBackList(p0)",
+      "PushFrontList -> PushFrontList(p0)", "ForEach -> ForEach(p0)", "ForEachReverse -> ForEachReverse(p0)",
+      "Range -> Range(p0)", "RangeReverse -> RangeReverse(p0)", "Values -> Values()", "Len -> Len()"] ∧
+    hive_constructors = ["func newList", "{", "l := new(list[T])", "l.Init()", "return l", "}",
+      "func newThreadSafeList", "{", "return &threadSafeList[T]{", "list: newList[T](),", "}", "}"] := by
+  decide
+
+end code
 
 /-! ## regenerated synchronisation skeletons of the thread-safe wrapper
 
